@@ -23,6 +23,7 @@ type reqRec struct {
 	kind string // L G P D
 	key  string
 	ok   bool
+	val  []byte // body of a PUT
 }
 
 const (
@@ -87,7 +88,7 @@ func (f *fakeS3) pre(ctx aws.Context, kind, key string, mut bool) error {
 	if ctx != nil {
 		if err := ctx.Err(); err != nil {
 			f.mu.Lock()
-			f.log = append(f.log, reqRec{kind, key, false})
+			f.log = append(f.log, reqRec{kind: kind, key: key, ok: false})
 			f.mu.Unlock()
 			return awserr.New(request.CanceledErrorCode, "request context canceled", err)
 		}
@@ -106,17 +107,17 @@ func (f *fakeS3) pre(ctx aws.Context, kind, key string, mut bool) error {
 	if f.plan != nil {
 		switch f.plan(i, kind, key) {
 		case fErr:
-			f.log = append(f.log, reqRec{kind, key, false})
+			f.log = append(f.log, reqRec{kind: kind, key: key, ok: false})
 			return errInjected
 		case fGone:
-			f.log = append(f.log, reqRec{kind, key, false})
+			f.log = append(f.log, reqRec{kind: kind, key: key, ok: false})
 			return noSuchKey()
 		}
 	}
 	if mut {
 		f.muts++
 	}
-	f.log = append(f.log, reqRec{kind, key, true})
+	f.log = append(f.log, reqRec{kind: kind, key: key, ok: true})
 	return nil
 }
 
@@ -174,6 +175,9 @@ func (f *fakeS3) PutObjectWithContext(ctx aws.Context, in *s3.PutObjectInput, _ 
 	}
 	f.mu.Lock()
 	f.objs[*in.Key] = b
+	if n := len(f.log); n > 0 && f.log[n-1].kind == "P" && f.log[n-1].key == *in.Key {
+		f.log[n-1].val = b
+	}
 	f.mu.Unlock()
 	return &s3.PutObjectOutput{}, nil
 }
